@@ -3,6 +3,7 @@ import frontend
 import rules_life
 import rules_layer
 import rules_guard
+import rules_orphan
 
 
 class Context:
@@ -62,9 +63,19 @@ PROPS = {
         "design_ref": "DESIGN.md §2.5, §3 C13",
         "level_note": "trusts clang 14 call resolution (virtual calls expanded to all overriders) and the caller table in lib/rules_layer.py",
     },
+    "C15": {
+        "title": "Index sets number the members of a set 0..n-1 in lexicographic order",
+        "rules": [rules_orphan.rule_terminal_root],
+        "explanation": STRUCTURAL + ". C15: the lookup-failure clause (an index lookup that runs into a terminal must fail, not unpack it) and the cardinality-header clause (every accessor of the index-set cardinality header uses one element type).",
+        "assumptions": ["the numbering itself (offsets accumulated as edge values) is not decided"],
+        "technique": "def-to-use path rule over clang CFGs (non-terminal arm of a handle test must be crossed before unpacking); writer/reader element-type agreement",
+        "level_text": "exact static rule check on dd_edge::getElemInt/getElemLong and on the accessors of the index-set cardinality header; decides the lookup-failure and header-type clauses only",
+        "design_ref": "DESIGN.md §2.4 (guard.terminal-root), §2.6 (codec.layout header type), §3 C15",
+        "level_note": "trusts clang 14 CFGs; accepted non-terminal tests are enumerated in lib/rules_orphan.py",
+    },
     "C16": {
         "title": "Misuse is rejected with the documented error and leaves all functions intact",
-        "rules": [on_program(r) for r in rules_guard.RULES],
+        "rules": [on_program(r) for r in rules_guard.RULES] + [rules_orphan.rule_orphan, rules_orphan.rule_iterator_init],
         "explanation": STRUCTURAL + ". C16: every misuse named by the property has a check that dominates the dangerous use and throws the documented code: constructor-chain "
                        "domain/shape checks, zero-divisor and infinity tests, terminal overflow, value type, null operation, exhausted iterator.",
         "assumptions": ["state after an error thrown mid-recursion (partially built results) is not decided", "only the enumerated entry points and partial operations are covered"],
@@ -75,7 +86,8 @@ PROPS = {
     },
     "C17": {
         "title": "Library, domain and forest lifecycles are safe in any order",
-        "rules": [on_program(r) for r in rules_life.RULES] + [callers_for("C17"), on_program(rules_layer.rule_edge_fields)],
+        "rules": [on_program(r) for r in rules_life.RULES] + [callers_for("C17"), on_program(rules_layer.rule_edge_fields),
+                  rules_orphan.rule_orphan, rules_orphan.rule_iterator_init],
         "explanation": STRUCTURAL + ". C17: teardown order in ~forest, registry discipline (ids never reused), init/cleanup pairing, "
                        "entry-type destruction pairing, factories forgetting destroyed operations, null-forest guards on detached edges.",
         "assumptions": ["clang 14 CFG is faithful", "virtual calls resolved to all overriders", "interleavings of destroy with populated monolithic tables beyond these ordering facts are not decided"],
